@@ -105,12 +105,32 @@ impl C10 {
         rep: &mut CaseReport,
     ) -> Result<(Vec<usize>, StepResult), Failure> {
         let mut session = Session::new(c.u.clone(), rt, None);
+        // half of the re-entrant cases: the sort abandons nested requests it would have to wait for
+        let abandon = self.reentrant_sort && hash_of(&(&c.problem, c.u.packages.len())) & 1 == 1;
         if self.reentrant_sort {
-            session.provider().probe.set(crate::provider::SortProbe::Deps);
+            session.provider().probe.set(if abandon { crate::provider::SortProbe::DepsAbandon } else { crate::provider::SortProbe::Deps });
+        }
+        if let Some(sched) = &session.sched {
+            // never two requests for one key outstanding at the same time
+            *sched.observer.borrow_mut() = Some(Box::new(move |q: &Quiescent| -> Result<(), String> {
+                let mut seen = HashSet::new();
+                for (kind, key) in q.outstanding.iter() {
+                    if matches!(kind, ReqKind::Candidates | ReqKind::Dependencies) && !seen.insert((*kind, *key)) {
+                        return Err(format!("quiescent point #{}: two {kind:?} requests for key {key} are outstanding at the same time: {:?}", q.index, q.outstanding));
+                    }
+                }
+                Ok(())
+            }));
         }
         let res = session.solve(&c.problem, Cancel::Never, false, false);
         rep.evaluations += 1;
-        let what = format!("schedule {rt:?}");
+        let what = format!("schedule {rt:?}{}", if abandon { " (sort_candidates abandons nested requests it would have to wait for)" } else { "" });
+        if let Outcome::ObserverFail(e) = &res.outcome {
+            return Err(Failure {
+                signature: "C10:duplicate-provider-request".into(),
+                detail: format!("{what}: {e}"),
+            });
+        }
         if let Some(f) = abnormal(&res.outcome, Cancel::Never) {
             return Err(Failure {
                 detail: format!("{what}: {}", f.detail),
@@ -128,8 +148,23 @@ impl C10 {
             });
         }
         // also "never asks twice" while the first request is still outstanding
+        // (a request that its caller abandoned may be made again: then what counts is that it is
+        // never outstanding twice - checked at every quiescent point - nor answered twice)
+        if abandon {
+            let mut answered = HashSet::new();
+            for call in &res.log {
+                if let Call::Completed(kind @ (ReqKind::Candidates | ReqKind::Dependencies), key) = call {
+                    if !answered.insert((*kind, *key)) {
+                        return Err(Failure {
+                            signature: "C10:duplicate-provider-request".into(),
+                            detail: format!("{what}: the {kind:?} request for key {key} was answered twice by the provider"),
+                        });
+                    }
+                }
+            }
+        }
         for (k, n) in model.deps_started.iter().chain(model.cands_started.iter()) {
-            if *n > 1 {
+            if *n > 1 && !abandon {
                 return Err(Failure {
                     signature: "C10:duplicate-provider-request".into(),
                     detail: format!("{what}: key {k} was requested {n} times from the provider"),
@@ -265,7 +300,7 @@ impl C10 {
     }
 }
 
-struct_property!(C10, "C10", "tape -> universe + problem; the provider's futures are owned by the harness scheduler: (sampled stage) FIFO, LIFO, complete-everything and 3 generated completion orders (incl. immediately-ready calls); (reentrant-sort stage) the same with a provider whose sort_candidates itself asks the SolverCache for the dependencies of the candidates it sorts and for the candidates of the packages those mention (conda-style ranking; such nested requests can be the first request for a package); (exhaustive stage) EVERY interleaving of small cases by DFS over the scheduler's choice tree (capped, cap counted). For every schedule: solve terminates (deadlock = root pending, not woken, nothing outstanding; step budget), the verdict equals the reference resolver's, Ok(S) passes the C01 predicate, and no get_candidates / get_dependencies key is requested twice; plus one run per case in which the provider signals cancellation at a generated poll and from then on completes NOTHING (outstanding requests stay outstanding): solve must still return. Non-trivial: >=2 quiescent points with >=2 outstanding requests and a completion order different from issue order. Distinct = distinct hash of case.");
+struct_property!(C10, "C10", "tape -> universe + problem; the provider's futures are owned by the harness scheduler: (sampled stage) FIFO, LIFO, complete-everything and 3 generated completion orders (incl. immediately-ready calls); (reentrant-sort stage) the same with a provider whose sort_candidates itself asks the SolverCache for the dependencies of the candidates it sorts and for the candidates of the packages those mention (conda-style ranking; such nested requests can be the first request for a package; in half of these cases the sort drops a nested request it would have to wait for and makes it again, so requests are abandoned while other callers wait for them); (exhaustive stage) EVERY interleaving of small cases by DFS over the scheduler's choice tree (capped, cap counted). For every schedule: solve terminates (deadlock = root pending, not woken, nothing outstanding; step budget), the verdict equals the reference resolver's, Ok(S) passes the C01 predicate, and no get_candidates / get_dependencies key is requested twice; plus one run per case in which the provider signals cancellation at a generated poll and from then on completes NOTHING (outstanding requests stay outstanding): solve must still return. Non-trivial: >=2 quiescent points with >=2 outstanding requests and a completion order different from issue order. Distinct = distinct hash of case.");
 
 // =============================================================================== C11
 
